@@ -29,6 +29,10 @@ only after the previous one was consumed by the thread it addresses):
 After the last event the script is "drained": readers get EOF, unless the stream
 is listed in case["never_eof"] (a descendant keeps the pipe open).
 
+  ["in_wait", n]                       (only with a real in_stream object, see run_scripted) nothing is
+                                       released: the driver waits until the stdin worker has written at
+                                       least n bytes to the child's stdin (or closed it, or ended)
+
 Opt-in per case (C14): case["pending_at_timer"] -- the in/in_eof events directly after a
 timer event are input already queued when the timer fires (released atomically with the
 expiry); case["real_kill"] -- kill() is the real Local.kill, run on a stand-in child process
@@ -509,6 +513,13 @@ class Env:
                     self.avail["in"].append((idx, unit))
                     self.cv.notify_all()
                     ok = self._wait(lambda: idx in self.consumed or self._worker_gone("in"))
+                elif kind == "in_wait":
+                    # real input stream object (run_scripted(in_stream=...)): the stdin worker reads on its
+                    # own; let it get this far before the next event
+                    need = int(ev[1])
+                    ok = self._wait(lambda: sum(len(b) for w, b in self.stdin_writes if w == "in") >= need
+                                    or self.stdin_closes > 0 or self._worker_gone("in"))
+                    self.consumed.append(idx)
                 elif kind == "in_eof":
                     self.in_eof = True
                     self.consumed.append(idx)
@@ -861,9 +872,14 @@ HIDE = {"none": None, "false": False, "true": True, "out": "out", "stdout": "std
         "err": "err", "stderr": "stderr", "both": "both"}
 
 
-def run_scripted(case):
+def run_scripted(case, in_stream=None, input_sleep=None):
     """Run one scripted case through the real Runner.  Returns the full
-    observation dict; plug-ins pick what their property talks about."""
+    observation dict; plug-ins pick what their property talks about.
+
+    Optional (C13): `in_stream` -- a real stream object (open text file, pipe, StringIO ...) handed to
+    run() as in_stream instead of the scripted ScriptedIn (the script then holds no in/in_eof events;
+    readiness of such an object is answered by the original ready_for_reading); `input_sleep` -- the
+    runner instance's input_sleep (configuration: the pause between two reads of the input stream)."""
     from invoke import Context, Config
     from invoke.exceptions import Failure, ThreadException
     cls = runner_class()
@@ -910,7 +926,9 @@ def run_scripted(case):
     if case.get("err_given"):
         kwargs["err_stream"] = err_rec
     ins = case.get("in")
-    if ins:
+    if in_stream is not None:
+        kwargs["in_stream"] = in_stream
+    elif ins:
         kwargs["in_stream"] = ScriptedIn(env, ins.get("mode", "text"), bool(ins.get("tty")))
     else:
         kwargs["in_stream"] = False
@@ -923,6 +941,8 @@ def run_scripted(case):
             kwargs["echo_stdin"] = case["echo_stdin"]
     if "timeout" in case:
         kwargs["timeout"] = case["timeout"]
+    if input_sleep is not None:
+        runner.input_sleep = input_sleep
 
     box = {}
 
